@@ -34,6 +34,9 @@ impl InstructionGenerator {
         for (case_block_index, case_block) in case_blocks.into_iter().enumerate() {
             // mark the beginning of this case block
             self.label(&labels::case_block(case_block_index), pos);
+            // to be able to resume at the CASE after an error in one of its expressions
+            // (the value of SELECT CASE stays on the stack)
+            self.mark_statement_address();
             // where to jump out from here if the case block isn't matching
             let next_case_label =
                 labels::next_case_label(case_blocks_len, has_else, case_block_index);
